@@ -2,22 +2,29 @@ package main
 
 import (
 	"fmt"
+	"os"
 	"strings"
-	"time"
 
+	"github.com/onflow/cadence/errors"
 	"github.com/onflow/cadence/parser"
-	"github.com/onflow/cadence/parser/lexer"
 )
 
 func main() {
-	for _, n := range []int{256, 4096, 16384} {
-		src := []byte(strings.Repeat("let x = a\n", n))
-		t0 := time.Now()
-		ts, _ := lexer.Lex(src, nil)
-		d := time.Since(t0)
-		ts.Reclaim()
-		t0 = time.Now()
-		parser.ParseProgram(nil, src, parser.Config{})
-		fmt.Println(n, "lex", d, "parse", time.Since(t0))
+	for _, s := range os.Args[1:] {
+		in := make([]byte, len(s))
+		copy(in, s)
+		_, err := parser.ParseProgram(nil, in, parser.Config{})
+		if pe, ok := err.(parser.Error); ok {
+			for _, e := range pe.Errors {
+				fmt.Printf("%T %v\n", e, e)
+				if ue, ok := e.(errors.UnexpectedError); ok {
+					for _, l := range strings.Split(string(ue.Stack), "\n") {
+						if strings.Contains(l, "/repo/parser") {
+							fmt.Println("  ", l[:min(len(l), 110)])
+						}
+					}
+				}
+			}
+		}
 	}
 }
